@@ -524,6 +524,14 @@ theorem lock_free_state_is_serial {σ : Type} (x0 : σ) (progs : List (List (Seg
     exact h2
 
 open Verif.Mutex in
+/-- and they cannot deadlock on it: under every schedule, unless every caller has finished and the
+lock is free, some caller can take a step that changes the lock state -/
+theorem locked_callers_never_deadlock {σ : Type} (x0 : σ) (progs : List (List (Seg σ))) (sched : List Nat)
+    (h : quiescent (Mutex.run (Mutex.init x0 progs) sched) = false) :
+    ∃ t, (Mutex.step (Mutex.run (Mutex.init x0 progs) sched) t).hold ≠ (Mutex.run (Mutex.init x0 progs) sched).hold :=
+  progress _ h
+
+open Verif.Mutex in
 /-- non-vacuity and necessity: two callers, `[x+1; x*2]` and `[x := 5]`. With the lock the
 schedule 0,0,1,0,0,1,1,1 ends in a serial outcome; the same instructions WITHOUT the lock and the
 schedule 0,1,0 end in 10, which neither serial order (5 and 12) produces -/
